@@ -260,3 +260,47 @@ Proof. eexists. split; [vm_compute; reflexivity|]. vm_compute. repeat split; dis
 Lemma fixed_late_token_discarded :
   exists s, nth_error (run_inst wfixed true wstate_init 0 refute3_toks []) 2 = Some s /\ s_dec s = Discard.
 Proof. eexists. split; [vm_compute; reflexivity|]. reflexivity. Qed.
+
+(* ---------------------------------------------------------------------------------------- *)
+(* the configured-profile specification: no token of a profile lies before the profile's start,
+   and a segment's tokens are not before the finish of the segments in front of it *)
+Definition seg_wf (s : segment) : Prop :=
+  match s with
+  | SOnce _ => True
+  | SConst period _ dur => 0 <= period /\ 0 <= dur
+  | SPause dur | SUnl dur => 0 <= dur
+  end.
+
+Lemma const_offsets_ge : forall n start period k, 0 <= period ->
+  Forall (fun o => start <= o) (const_offsets start period k n).
+Proof.
+  induction n as [|m IH]; intros start period k Hp; cbn; constructor; [nia|apply IH; exact Hp].
+Qed.
+
+Lemma Forall_ge_weaken : forall (a b : Z) l, a <= b -> Forall (fun o => b <= o) l -> Forall (fun o => a <= o) l.
+Proof. intros a b l Hab H. induction H; constructor; [lia|assumption]. Qed.
+
+Lemma profile_offsets_ge : forall segs start,
+  Forall seg_wf segs ->
+  Forall (fun o => start <= o) (fst (profile_offsets start segs)) /\
+  Forall (fun w => start <= fst w) (snd (profile_offsets start segs)).
+Proof.
+  induction segs as [|s r IH]; intros start Hwf; cbn [profile_offsets]; [split; constructor|].
+  inversion Hwf as [|x xs Hs Hr]; subst.
+  destruct s as [n|period n dur|dur|dur]; cbn [seg_wf] in Hs.
+  - destruct (profile_offsets start r) as [o u] eqn:E. destruct (IH start Hr) as [I1 I2]. rewrite E in I1, I2. cbn in *.
+    split; [|exact I2]. apply Forall_app. split; [|exact I1].
+    clear. induction n; cbn; constructor; [lia|assumption].
+  - destruct Hs as [Hp Hd].
+    destruct (profile_offsets (start + dur) r) as [o u] eqn:E. destruct (IH (start + dur) Hr) as [I1 I2]. rewrite E in I1, I2. cbn in *.
+    split.
+    + apply Forall_app. split; [apply const_offsets_ge; exact Hp|]. eapply Forall_ge_weaken; [|exact I1]. lia.
+    + clear -I2 Hd. induction I2; constructor; [lia|assumption].
+  - destruct (IH (start + dur) Hr) as [I1 I2]. split.
+    + eapply Forall_ge_weaken; [|exact I1]. lia.
+    + clear -I2 Hs. induction I2; constructor; [lia|assumption].
+  - destruct (profile_offsets (start + dur) r) as [o u] eqn:E. destruct (IH (start + dur) Hr) as [I1 I2]. rewrite E in I1, I2. cbn in *.
+    split.
+    + eapply Forall_ge_weaken; [|exact I1]. lia.
+    + constructor; [cbn; lia|]. clear -I2 Hs. induction I2; constructor; [lia|assumption].
+Qed.
